@@ -293,6 +293,7 @@ def job_expand_inductive(ctx, jr, N, OC, KC, nvars, key_cap, val_cap):
         e.hooks['parser::reparse_arguments'] = h_reparse
         st = State(True, {(0, 'meta'): meta_new(1), (0, 'vars'): env})
         fr = induct.capture(e, 'core', fname, [tmpl, P(0, 'meta'), P(0, 'vars')], st)
+        fr.require(['value_string', 'prefix_index', 'found_prefix', 'key', 'force_push', 'single_type', 'iter'])
         it0 = fr.get(fr.st, 'iter')
         obs = []
         single = e.fresh_bool('single')
